@@ -117,4 +117,15 @@ def run(ctx, rep):
             okg = any(equal(ite(x['cond'], ONE, ZERO), ite(cmp('le', ('a', atom), C(mx)), ONE, ZERO))[0] for x in g)
             rep.ob('operand-guard', key_, okg, '%s must refuse operands above %d before emitting' % (key_, mx), sp=f.bodies[d]['sp'], detail={'guards': [show(x['cond']) for x in g]})
     rep.floor('AML constructors with a production', n, 52)
+    # operand enums: every variant carries the value the grammar assigns (region spaces, field access/lock/update, cacheability)
+    import options as OPT
+    for path, variants in sorted(OPT.ENUMS.items()):
+        if not path.startswith('aml::'): continue
+        adt = f.adt(path)
+        if not adt: rep.ob('anchor', path, False, 'enum %s not found' % path); continue
+        got = {v['name']: v['discr'] for v in adt['variants']}
+        for vn, val in variants.items():
+            rep.ob('operand-enum', '%s::%s' % (path, vn), got.get(vn) == val, '%s::%s encodes as %s, the grammar assigns %s' % (path, vn, got.get(vn), val), sp=adt['sp'], detail={'value': got.get(vn), 'specified': val})
+        for vn in sorted(set(got) - set(variants)):
+            rep.ob('operand-enum', '%s::%s' % (path, vn), False, 'variant %s::%s (value %s) has no value in the specification table: add it to spec/options.py after checking the ACPI value' % (path, vn, got[vn]), sp=adt['sp'])
     rep.extra['unspecified_types'] = unspecified
